@@ -176,6 +176,11 @@ struct Req {
     headers: Vec<(String, String)>,
     body: Vec<u8>,
 }
+/// header values are written as text whose chars below U+0100 stand for single bytes (Latin-1), so that byte values >= 0x80 that are not
+/// UTF-8 can be sent; anything else is sent as its UTF-8 bytes
+fn hb(s: &str) -> Vec<u8> {
+    if s.chars().all(|c| (c as u32) < 256) { s.chars().map(|c| c as u32 as u8).collect() } else { s.as_bytes().to_vec() }
+}
 fn signing_key(date: &str, region: &str, service: &str) -> Vec<u8> {
     let k = hmac(format!("AWS4{}", SECRET).as_bytes(), date.as_bytes());
     let k = hmac(&k, region.as_bytes());
@@ -192,7 +197,7 @@ fn reference_creq(r: &Req, query_for_creq: &str, signed: &[String], s3: bool) ->
     out.extend(canon_query(&parse_query(query_for_creq.as_bytes())?));
     out.push(b'\n');
     for name in signed {
-        let vals: Vec<Vec<u8>> = r.headers.iter().filter(|h| h.0.to_lowercase() == *name).map(|h| collapse_trim(h.1.as_bytes())).collect();
+        let vals: Vec<Vec<u8>> = r.headers.iter().filter(|h| h.0.to_lowercase() == *name).map(|h| collapse_trim(&hb(&h.1))).collect();
         if !vals.is_empty() {
             out.extend(name.as_bytes());
             out.push(b':');
@@ -291,7 +296,7 @@ fn validate_with(r: &Req, now: DateTime<Utc>, region: &str, service: &str, optio
     }
     let mut b = Request::builder().method(r.method).uri(uri);
     for (k, v) in &r.headers {
-        b = b.header(k.as_str(), v.as_str());
+        b = b.header(k.as_str(), http::HeaderValue::from_bytes(&hb(v)).map_err(|e| format!("http: {}", e))?);
     }
     let req = b.body(Bytes::from(r.body.clone())).map_err(|e| format!("http: {}", e))?;
     let rt = tokio::runtime::Builder::new_current_thread().build().unwrap();
@@ -845,13 +850,14 @@ fn model_verdict(r: &Req, c: &Cfg) -> Result<(Option<String>, usize), (&'static 
     let path = canon_path(r.path.as_bytes(), c.s3).ok_or(("InvalidURIPath", "C09"))?;
     let mut pairs = parse_query(r.query.as_bytes()).ok_or(("MalformedQueryString", "C10"))?;
     // header view: lower-cased names, values collapse-trimmed, arrival order per name
-    let hv: Vec<(String, Vec<u8>)> = r.headers.iter().map(|(k, v)| (k.to_lowercase(), collapse_trim(v.as_bytes()))).collect();
+    let hv: Vec<(String, Vec<u8>)> = r.headers.iter().map(|(k, v)| (k.to_lowercase(), collapse_trim(&hb(v)))).collect();
     let hvals = |name: &str| -> Vec<&Vec<u8>> { hv.iter().filter(|h| h.0 == name).map(|h| &h.1).collect() };
     // content type: FIRST Content-Type header, raw value
     let mut folded = false;
     if c.fold {
         if let Some((_, raw)) = r.headers.iter().find(|h| h.0.to_lowercase() == "content-type") {
-            let pieces: Vec<&[u8]> = raw.as_bytes().split(|b| *b == b';').map(trim_ws).collect();
+            let rawb = hb(raw);
+            let pieces: Vec<&[u8]> = rawb.split(|b| *b == b';').map(trim_ws).collect();
             if pieces[0] == b"application/x-www-form-urlencoded" {
                 let mut charset: Option<Vec<u8>> = None;
                 for p in &pieces[1..] {
@@ -955,7 +961,7 @@ fn blame_sections(r: &Req, c: &Cfg) -> Vec<&'static str> {
     let mut uri = r.path.clone();
     if !r.query.is_empty() { uri.push('?'); uri.push_str(&r.query); }
     let mut b = Request::builder().method(r.method).uri(uri);
-    for (k, v) in &r.headers { b = b.header(k.as_str(), v.as_str()); }
+    for (k, v) in &r.headers { b = match http::HeaderValue::from_bytes(&hb(v)) { Ok(hvv) => b.header(k.as_str(), hvv), Err(_) => return vec![] }; }
     let req = match b.body(Bytes::from(r.body.clone())) { Ok(q) => q, Err(_) => return vec![] };
     let (parts, body) = req.into_parts();
     let opt = SignatureOptions { s3: c.s3, url_encode_form: c.fold };
@@ -972,23 +978,23 @@ fn blame_sections(r: &Req, c: &Cfg) -> Vec<&'static str> {
     let mut names: Vec<String> = r.headers.iter().map(|h| h.0.to_lowercase()).collect();
     names.sort(); names.dedup();
     let creq = real.canonical_request(&names);
-    let text = String::from_utf8_lossy(&creq).to_string();
-    let mut model_block = String::new();
+    let contains = |hay: &[u8], needle: &[u8]| needle.is_empty() || hay.windows(needle.len()).any(|w| w == needle);
+    let mut model_block: Vec<u8> = Vec::new();
     for nme in &names {
-        let vals: Vec<Vec<u8>> = r.headers.iter().filter(|h| h.0.to_lowercase() == *nme).map(|h| collapse_trim(h.1.as_bytes())).collect();
-        model_block.push_str(nme); model_block.push(':'); model_block.push_str(&String::from_utf8_lossy(&vals.join(&b','))); model_block.push('\n');
+        let vals: Vec<Vec<u8>> = r.headers.iter().filter(|h| h.0.to_lowercase() == *nme).map(|h| collapse_trim(&hb(&h.1))).collect();
+        model_block.extend(nme.as_bytes()); model_block.push(b':'); model_block.extend(vals.join(&b',')); model_block.push(b'\n');
     }
-    model_block.push('\n'); model_block.push_str(&names.join(";")); model_block.push('\n');
-    if !text.contains(&model_block) { out.push("C11"); }
-    if !text.ends_with(&sha_hex(if folded { b"" } else { &r.body })) { out.push("C12"); out.push("C01"); }
-    if !text.starts_with(&format!("{}\n", r.method)) { out.push("C01"); }
+    model_block.push(b'\n'); model_block.extend(names.join(";").as_bytes()); model_block.push(b'\n');
+    if !contains(&creq, &model_block) { out.push("C11"); }
+    if !creq.ends_with(sha_hex(if folded { b"" } else { &r.body }).as_bytes()) { out.push("C12"); out.push("C01"); }
+    if !creq.starts_with(format!("{}\n", r.method).as_bytes()) { out.push("C01"); }
     out
 }
 /// does the model reach the key provider (rules 1-13 pass), and with which session token?
 fn model_provider(r: &Req, c: &Cfg) -> (bool, Option<Vec<u8>>) {
     match model_verdict(r, c) {
         Ok(_) | Err((_, "C01")) => {
-            let hv: Vec<(String, Vec<u8>)> = r.headers.iter().map(|(k, v)| (k.to_lowercase(), collapse_trim(v.as_bytes()))).collect();
+            let hv: Vec<(String, Vec<u8>)> = r.headers.iter().map(|(k, v)| (k.to_lowercase(), collapse_trim(&hb(v)))).collect();
             let tok = if hv.iter().any(|h| h.0 == "authorization") {
                 hv.iter().find(|h| h.0 == "x-amz-security-token").map(|h| h.1.clone())
             } else {
@@ -1010,13 +1016,14 @@ fn search_differential(seed: u64, budget: usize, want: Option<&str>) -> (usize, 
         "/x/%2E/y", "/x/%2e%2E/y", "/x/y/%2e%2e", "/a/.../b", "/a/..b/.c", "/a//b//", "/%41%42/%7e", "/a/%2F/b", "/a/b/..", "/a/b/.", "/a%", "/a%4", "/*'()!", "/a/%+1"];
     let queries = ["", "a=1", "b=2&a=1&a=0", "a=1&a-b=2", "q=x%20y&q=x+y", "k=v%3D%3D&e=", "%41=1&a=%61", "d=1&d=1", "m=YWJj==", "&&x&&", "x=%zz", "a=%e4%b8%ad&A=1", "z=1&y=2&Z=3", "a=b=c=d", "=v", "x-amz-signature=1",
         "a.b=1&a=2&a-=3", "k=%2B&k=+&k=%20", "x=1&X-Amz-Signature=abc", "p=%7E&p=~", "e=&e", "a=1&&b=2&", "s=a%26b%3Dc", "u=%E2%82%AC",
-        "X-Amz-Security-Token=tok%2Fen%2B%3D&a=1", "a=1&X-Amz-Expires=3600", "X-Amz-Expires=60", "a=1;b=2", "k=v;x", "X-Amz-Content-Sha256=UNSIGNED-PAYLOAD"];
+        "X-Amz-Security-Token=tok%2Fen%2B%3D&a=1", "X-Amz-Security-Token=abc%80%FFdef", "k=x-y&k=x%2Fy", "t=1200&t=12%3A00&aab=2&a%7Cb=1", "a=1&X-Amz-Expires=3600", "X-Amz-Expires=60", "a=1;b=2", "k=v;x", "X-Amz-Content-Sha256=UNSIGNED-PAYLOAD"];
     let extra: [&[(&str, &str)]; 12] = [&[], &[("X-Custom", "  a   b  ")], &[("x-dup", "1"), ("X-Dup", "2")], &[("Date", "Sun, 30 Aug 2015 12:36:00 GMT")], &[("X-Amz-Meta-Tab", "a\tb")],
         &[("X-Amz-Target", "Svc.Op"), ("ETag", "\"abc\"")], &[("X-Amz-Security-Token", "tok/en+="), ("x-amz-security-token", "second")], &[("Content-Type", "text/plain")],
         &[("x-foo", ""), ("x-foo", "a")], &[("x-bar", "a"), ("x-bar", ""), ("X-Bar", "b")], &[("Content-Length", "22")], &[("x-amz-content-sha256", "UNSIGNED-PAYLOAD")]];
     let dates = ["20150830T123600Z", "2015-08-30T12:36:00Z", "20150830T143600+0200", "2015-08-30T07:06:00.000-05:30", "20150830T123600,5Z", "20150830T123600", "2015-08-30 12:36:00Z", "20150830T123660Z", "20150230T123600Z", "20150830T122059Z", "20150830T125101Z", "20150830T125100Z", "20150830T122100Z",
         "20150830T125100.5Z", "20150830T122059.999999999Z", "20150830T125100.000000001Z", "20150830T122100.0Z", "20150831T003000+1200", "20150829T233600-1300", "2015-08-30T12:36:00+00:00", "20150830T123600-0000", "20150830T123600.Z", "20150830T123600+2400", "20150830t123600z", " 20150830T123600Z",
-        "20150830T120600-0030", "2015-08-30T12:06:00-00:30", "20150830T130600+0030", "20150830T123600+0000", "20150830T235959-1259"];
+        "20150830T120600-0030", "2015-08-30T12:06:00-00:30", "20150830T130600+0030", "20150830T123600+0000", "20150830T235959-1259",
+        "20150830T123600.9999999996Z", "20150830T123600.99999999999Z", "2015-08-30T12:36:00.0000000001Z", "20150830T123559.9999999999Z"];
     let bodies: [&[u8]; 12] = [b"", b"a=3&c=4", b"x=%7E&x=~", b"\xEF\xBB\xBFa=b", b"a=%zz", b"\xff\xfe", b"k=v&&k2", b"b=2\n", b" a=1", b"a=1 ", b"\r\nz=9\r\n", b"a=b=c&d"];
     let ctypes = ["application/x-www-form-urlencoded", "application/x-www-form-urlencoded; charset=utf-8", "application/x-www-form-urlencoded;charset=UTF8", "application/x-www-form-urlencoded; Charset=klingon",
         "application/x-www-form-urlencoded ; boundary=x ; CHARSET=utf-8", "Application/X-WWW-Form-Urlencoded", "text/plain; charset=klingon", "application/x-www-form-urlencoded; charset"];
@@ -1037,7 +1044,7 @@ fn search_differential(seed: u64, budget: usize, want: Option<&str>) -> (usize, 
             let mut pth = String::from("/");
             for _ in 0..pick(&mut x, 8) { pth.push_str(ptoks[pick(&mut x, ptoks.len())]); }
             r.path = pth;
-            let qtoks = ["a", "b", "A", "=", "=", "&", "&", ";", "%3D", "%26", "+", "%20", "%2B", "%", "%2", "%zz", "%41", "%61", "~", "%7E", "-", ".", "_", "X-Amz-Signature", "x", "1", "%C3%A9", "/", "?", ":", "@"];
+            let qtoks = ["a", "b", "A", "=", "=", "&", "&", ";", "%FF", "%80", "|", "%7C", "%3D", "%26", "+", "%20", "%2B", "%", "%2", "%zz", "%41", "%61", "~", "%7E", "-", ".", "_", "X-Amz-Signature", "x", "1", "%C3%A9", "/", "?", ":", "@"];
             let mut q = String::new();
             for _ in 0..pick(&mut x, 10) { q.push_str(qtoks[pick(&mut x, qtoks.len())]); }
             r.query = q;
@@ -1084,7 +1091,7 @@ fn search_differential(seed: u64, budget: usize, want: Option<&str>) -> (usize, 
         }
         // post-signing mutations (0-2)
         for _ in 0..pick(&mut x, 3) {
-            match pick(&mut x, 24) {
+            match pick(&mut x, 27) {
                 0 => { for h in r.headers.iter_mut() { if h.0 == "Authorization" { h.1.push('0'); } } }
                 1 => { r.headers.push(("X-Unsigned".into(), "v".into())); }
                 2 => { r.headers.push(("X-Amz-Meta-New".into(), "v".into())); }
@@ -1108,6 +1115,9 @@ fn search_differential(seed: u64, budget: usize, want: Option<&str>) -> (usize, 
                 20 => { r.headers.push(("Content-Length".into(), "7".into())); }
                 21 => { for h in r.headers.iter_mut() { if h.0 == "Authorization" { if let (Some(a), Some(b)) = (h.1.find("SignedHeaders="), h.1.find(", Signature=")) { if a < b { let up = h.1[a + 14..b].to_uppercase(); h.1.replace_range(a + 14..b, &up); } } } } }
                 22 => { for h in r.headers.iter_mut() { if h.0 == "Authorization" { h.1 = h.1.replace("Credential=", "Credential= ").replace("/us-east-1/", "/US-EAST-1/"); } } }
+                23 => { r.headers.push(("X-Amz-Security-Token".into(), "unsigned-token".into())); }
+                24 => { for h in r.headers.iter_mut() { if h.0 == "Authorization" { h.1 = h.1.replace("Credential=AKIDEXAMPLE", ["Credential=AKID%45XAMPLE", "Credential=AKIDEXAMPLE%2F", "Credential=AK%zz"][pick(&mut x, 3)]); } } }
+                25 => { r.query = r.query.replace("X-Amz-Credential=AKIDEXAMPLE", "X-Amz-Credential=AKID%FFEXAMPLE"); }
                 19 => { if let Some(p) = r.query.find("X-Amz-Signature=") { let (a, b) = r.query.split_at(p + 16); r.query = format!("{}{}", a, b.to_uppercase()); } }
                 _ => { r.method = if r.method == "GET" { "POST" } else { "GET" }; }
             }
@@ -1172,7 +1182,7 @@ fn search_differential(seed: u64, budget: usize, want: Option<&str>) -> (usize, 
         // C15: an accepted request comes back with the method and the headers it was submitted with (names, values, multiplicity, per-name order)
         if real.is_ok() && want.map(|w| w == "C15").unwrap_or(true) {
             if let Some((m, hs)) = LAST_RETURNED.lock().unwrap().clone() {
-                let mut sent: Vec<(String, Vec<u8>)> = r.headers.iter().map(|(k, v)| (k.to_lowercase(), v.as_bytes().to_vec())).collect();
+                let mut sent: Vec<(String, Vec<u8>)> = r.headers.iter().map(|(k, v)| (k.to_lowercase(), hb(v))).collect();
                 let mut got = hs.clone();
                 sent.sort_by(|a, b| a.0.cmp(&b.0)); got.sort_by(|a, b| a.0.cmp(&b.0)); // stable: per-name order is kept
                 if m != r.method || sent != got {
@@ -1561,6 +1571,35 @@ fn validate_raw_header(r: &Req, name: &'static str, value: &[u8], now: DateTime<
         Ok(Err(e)) => Err(match e.downcast_ref::<scratchstack_aws_signature::SignatureError>() { Some(se) => format!("{}: {}", kind(se), se), None => format!("non-SignatureError: {}", e) }),
     }
 }
+/// C17: Debug / Display renderings of the public values that hold or travel with key material must not contain it (hex in either case, decimal
+/// byte list, or the secret text)
+fn search_debug_leaks() -> (usize, Option<Value>) {
+    let mut n = 0;
+    let date = chrono::NaiveDate::from_ymd_opt(2015, 8, 30).unwrap();
+    let secret = KSecretKey::<44>::from_str(SECRET).unwrap();
+    let kd = secret.to_kdate(date); let kr = kd.to_kregion("us-east-1"); let ks = kr.to_kservice("service"); let kg = ks.to_ksigning();
+    let mut needles: Vec<(String, String)> = vec![("secret".into(), SECRET.to_string())];
+    for (name, bytes) in [("kDate", kd.as_ref().to_vec()), ("kRegion", kr.as_ref().to_vec()), ("kService", ks.as_ref().to_vec()), ("kSigning", kg.as_ref().to_vec())] {
+        needles.push((format!("{} (hex)", name), hex::encode(&bytes)));
+        needles.push((format!("{} (decimal bytes)", name), bytes.iter().map(|b| b.to_string()).collect::<Vec<_>>().join(", ")));
+    }
+    let resp = GetSigningKeyResponse::builder().signing_key(secret.to_ksigning(date, "us-east-1", "service")).build().unwrap();
+    let texts: Vec<(&str, String)> = vec![
+        ("Debug of GetSigningKeyResponse", format!("{:?}", resp)), ("Debug of KSecretKey", format!("{:?}", secret)), ("Display of KSecretKey", format!("{}", secret)),
+        ("Debug of KDateKey", format!("{:?}", kd)), ("Display of KDateKey", format!("{}", kd)), ("Debug of KRegionKey", format!("{:?}", kr)), ("Display of KRegionKey", format!("{}", kr)),
+        ("Debug of KServiceKey", format!("{:?}", ks)), ("Display of KServiceKey", format!("{}", ks)), ("Debug of KSigningKey", format!("{:?}", kg)), ("Display of KSigningKey", format!("{}", kg)),
+    ];
+    for (what, text) in texts {
+        n += 1;
+        let low = text.to_lowercase();
+        for (needle_name, needle) in &needles {
+            if low.contains(&needle.to_lowercase()) {
+                return (n, Some(json!({"fn": what, "case": format!("rendering contains the {}", needle_name), "rendering": text})));
+            }
+        }
+    }
+    (n, None)
+}
 /// C15: the principal and the session data the provider supplies come back unchanged
 fn search_identity() -> (usize, Option<Value>) {
     use scratchstack_aws_principal::{Principal, SessionData, SessionValue, User};
@@ -1899,6 +1938,9 @@ fn searches_for(pid: &str, strict_d6: bool) -> Vec<(&'static str, (usize, Option
     if all || pid == "C11" || pid == "C19" {
         v.push(("carriers", search_carriers()));
     }
+    if all || pid == "C17" {
+        v.push(("debug_display_leaks", search_debug_leaks()));
+    }
     if pid == "C18" {
         let seed: u64 = std::env::var("VERIF_SEED").ok().and_then(|s| s.parse().ok()).unwrap_or(0);
         v.push(("differential_repeat", search_differential(seed, 30_000, Some("C18"))));
@@ -1942,6 +1984,11 @@ fn main() {
             if pid == "C15" { rs.push(("into_request_bytes", search_into_bytes())); rs.push(("identity_passthrough", search_identity())); }
             if pid == "C05" { rs.push(("requirement_mutators", search_requirement_mutators())); }
             if pid == "C16" { rs.push(("calendar_exhaustive", calendar_exhaustive())); rs.push(("regex_transcription", regex_transcription_crosscheck(200_000))); }
+            if pid == "C17" {
+                let seed: u64 = std::env::var("VERIF_SEED").ok().and_then(|s| s.parse().ok()).unwrap_or(0);
+                rs.push(("debug_display_leaks", search_debug_leaks()));
+                rs.push(("differential_leak_scan", search_differential(seed, 50_000, Some("C17"))));
+            }
             if pid == "C01" || pid == "C02" || pid == "C13" {
                 let seed: u64 = std::env::var("VERIF_SEED").ok().and_then(|s| s.parse().ok()).unwrap_or(0);
                 rs.push(("differential", search_differential(seed, 50_000, Some(pid))));
@@ -1950,6 +1997,7 @@ fn main() {
             let found: Vec<Value> = rs.iter().filter_map(|r| r.1 .1.clone().map(|d| json!({"search": r.0, "disagreement": d}))).collect();
             json!({"ok": true, "found": !found.is_empty(), "cases": cases, "searches": rs.iter().map(|r| json!({"name": r.0, "cases": r.1.0})).collect::<Vec<_>>(), "disagreements": found,
                    "bound": match pid {
+                       "C17" => "debug_display_leaks: Debug/Display renderings of the five key types and of GetSigningKeyResponse searched for the secret and the derived keys (hex, decimal); differential_leak_scan: BOUNDED, 50 000 pseudo-random requests, the error text and every debug-level log record of each refusal searched for the signature the reference model computed, the signing key and the secret",
                        "C01" | "C02" | "C13" => "differential: BOUNDED, 50 000 pseudo-random reference-signed and mutated requests (seed VERIF_SEED) through sigv4_validate_request against the reference model of the whole validation; it checks the assumed contracts of the dependencies as much as the crate",
                        "C16" => "calendar_exhaustive: COMPLETE by native execution over every (y, m, d) the pattern admits (0000-9999 x 01-12 x 01-31) against chrono; regex_transcription: BOUNDED, 200 000 structured and mutated strings against the regex crate on the repository's exact pattern text",
                        _ => "fixed lists of Content-Type spellings / body lengths / requirement-set constructions: the COMPILED get_content_type_and_charset, trim_ascii, IntoRequestBytes impls and VecSignedHeaderRequirements mutators against the same specs their extracted text is verified against" }})
